@@ -986,6 +986,10 @@ def check_proc(p, I, rng, counts, n_inputs=3, tag="", workdir=None, keep=None, s
             cnt("gcc-rejected")
             return findings
         for l in pdiag:
+            if not re.search(r"unused variable|set but not used|may be used after|unused-but-set", l):
+                findings.append(dict(base, kind="note", key="note:" + cc_class(l), what=l[:200], diag=diag[:1500]))
+                break
+        for l in pdiag:
             if CONST_DIAG.search(l):
                 findings.append(dict(base, kind="const", key=f"const:{cc_class(l)}",
                                      what=f"const violation in the emitted C: {l[:200]}", diag=l, main=main))
@@ -1288,7 +1292,7 @@ def run(ctx, prop):
     # ------------------------------------------------------------------ programs
     progs = dict(pool.POOL)
     progs.update(EXTRA)
-    n_gen = ctx.scale(16, 60)
+    n_gen = ctx.scale(12, 48)
     grng = __import__("random").Random(f"gen:{prop}:{ctx.seed}")
     for k in range(n_gen):
         nm, src = gen_program(grng, k, allow_alias=(k % 6 == 0))
@@ -1298,10 +1302,10 @@ def run(ctx, prop):
     pool.POOL.update(progs)
     try:
         recs = sched_run.run_stream(
-            ctx, ["obs_cc"], nvariants=ctx.scale(1, 2),
-            opts={"depth": ctx.scale(1, 2), "max_attempts": ctx.scale(40, 160), "depth2_attempts": 20, "depth2_procs": 4,
-                  "cc_per_op": ctx.scale(1, 2), "cc_total": ctx.scale(8, 30), "cc_prob": 0.6,
-                  "n_inputs0": ctx.scale(5, 10), "n_inputs": ctx.scale(3, 4), "salt": prop,
+            ctx, ["obs_cc"], nvariants=1,
+            opts={"depth": ctx.scale(1, 2), "max_attempts": ctx.scale(25, 120), "depth2_attempts": 15, "depth2_procs": 3,
+                  "cc_per_op": ctx.scale(1, 2), "cc_total": ctx.scale(4, 20), "cc_prob": 0.6,
+                  "n_inputs0": ctx.scale(4, 8), "n_inputs": ctx.scale(3, 4), "salt": prop,
                   "record_limit": ctx.scale(250, 800)})
     finally:
         pool.POOL.clear()
@@ -1333,6 +1337,12 @@ def run(ctx, prop):
                 ctx.count("impure-op-seen")
             elif kind == "exo-exception":
                 n_exc += 1
+            elif kind == "note":
+                ctx.count("note:" + x["key"])
+                notes = ctx.extra.setdefault("gcc_notes", [])
+                if len(notes) < 12 and not any(n["key"] == x["key"] for n in notes):
+                    notes.append({"key": x["key"], "what": x["what"], "program": x["program"],
+                                  "hist": [h["op"] for h in x.get("hist", [])], "diag": x["diag"][:800]})
             elif kind in X_KINDS[prop]:
                 ctx.violation(x["key"], f"{x['program']} [{' ; '.join(h['op'] for h in x.get('hist', [])) or 'as written'}]: {x['what']}", x)
             else:
